@@ -79,7 +79,7 @@ func (e *fsEv) fill() *fsEv {
 
 var fsTraceNames = [][]string{
 	{"a"}, {"b"}, {"e"}, {"f"}, {"f", "DOT", "x"}, {"a", "DOT", "x"}, {"a", "SP", "b"}, {"b", "DOT", "x", "DOT", "e"},
-	{"DOT", "DOT", "SP"}, {"DOT", "a"}, {"x"}, {"e", "f"}, {"A"},
+	{"DOT", "DOT", "SP"}, {"DOT", "a"}, {"x"}, {"e", "f"}, {"A"}, {"DOT", "DOT", "a"}, // ("..a": a name, not a step up)
 }
 var fsTraceHostile = [][]string{{"DOT"}, {"DOT", "DOT"}, {"a", "SL", "b"}, {"SL", "a"}, {"DOT", "DOT", "SL", "a"}, {"a", "SL"}}
 var fsTraceExts = [][]string{{"DOT", "x"}, {"x"}, {"f", "DOT", "x"}, {"a"}, {"e"}, {}, {"DOT", "e"}}
@@ -183,7 +183,7 @@ func newFsDecoder(c *tok.Conc, names [][]string) *fsDecoder {
 	for _, n := range names {
 		d.byComp[c.Seq(n)] = n
 	}
-	for _, n := range [][]string{{"t"}, {"s"}, {"k"}, {"e"}, {"f"}, {"A"}} {
+	for _, n := range [][]string{{"t"}, {"s"}, {"k"}, {"e"}, {"f"}, {"A"}, {"U"}} {
 		d.byComp[c.Seq(n)] = n
 	}
 	return d
@@ -320,8 +320,9 @@ func traceFsHistories(r *evid.Run, pool *wproto.Pool, nHist int, mix fsTraceMix,
 					p = nodePaths[rng.Intn(len(nodePaths))]
 				} else {
 					base := nodePaths[rng.Intn(len(nodePaths))]
-					p = append(append(append([]string{}, base...), "SL"), [][]string{{"e"}, {"f"}, {"A"}, {"k"}}[rng.Intn(4)]...)
+					p = append(append(append([]string{}, base...), "SL"), [][]string{{"e"}, {"f"}, {"A"}, {"k"}, {"U"}}[rng.Intn(5)]...)
 				}
+				notUTF8 := p[len(p)-1] == "U" // an entry whose name is not valid UTF-8 (as a regular file: see KNOWN_FINDINGS for directories)
 				bad := false
 				for _, t := range p {
 					if t == "L" {
@@ -340,7 +341,7 @@ func traceFsHistories(r *evid.Run, pool *wproto.Pool, nHist int, mix fsTraceMix,
 					continue
 				}
 				kind := "dir"
-				if rng.Intn(2) == 0 {
+				if rng.Intn(2) == 0 || notUTF8 {
 					kind = "file"
 					os.WriteFile(full, []byte("env"), 0o644)
 				} else {
